@@ -29,6 +29,7 @@ RULES = {
     "C18-K2": "bytes written between the quotes never exceed the 255-character budget: conservation invariant, no unsigned wrap of the budget",
     "C18-K3": "opening quote first, every emitted inner quote doubled, closing quote on every path",
     "C18-K4": "SYSTem:ERRor? pops one entry, prints it, then releases its text, on every path",
+    "C18-K6": "(static-heap build) the text handed to the response is the stored one: copies are consecutive pieces of the pushed text, the read-out measures each part up to the end of the heap (shared with C20-H2 / C20-H1c)",
     "C18-K5": "description/length part arrays are indexed below their declared size",
 }
 
@@ -227,6 +228,9 @@ def run(ck, fb, tier):
         rule_k2_k5(ck, prog, cfg)
         rule_k3(ck, prog, S)
         rule_k4(ck, prog, S, cfg)
+        if cfg == "C":
+            from . import c20
+            c20.rule_h1_h2(K.RuleProxy(ck, {"C20-H2": "C18-K6", "C20-H1c": "C18-K6"}), prog)
     ck.trust("libc strlen/strnlen contracts; writeData emits exactly the number of bytes it is given")
 
 
